@@ -233,6 +233,16 @@ class Interp(object):
                 if isinstance(e.exc, KeyError):
                     return args[1] if len(args) > 1 else kwargs.get('default')
                 raise
+        import bisect as _bisect
+        if f in (_bisect.bisect_left, _bisect.bisect_right, _bisect.bisect) and len(args) == 2 and not kwargs and \
+                isinstance(args[0], (list, tuple)) and isinstance(args[1], SInt) and \
+                all(isinstance(x, int) and not isinstance(x, bool) for x in args[0]) and list(args[0]) == sorted(args[0]):
+            # bisect over a concrete sorted list of ints with a symbolic key: the number of elements < key (left) / <= key
+            from .values import ite
+            acc = 0
+            for x in args[0]:
+                acc = acc + ite((x < args[1]) if f is _bisect.bisect_left else (x <= args[1]), 1, 0)
+            return acc
         import functools as _functools
         if f is _functools.reduce and args and not kwargs:
             # functools.reduce(fn, iterable[, initial]) by its definition (a left fold); fn may be repository code
